@@ -342,6 +342,32 @@ def case_specials(rec):
                 x = U.LogRepFloat(log_val=a)
                 if (z + x).log_val != x.log_val or math.isnan(float((z * x).log_val)) and a != inf:
                     bad.append(("zero weight", a, b, None))
+                # LogRepFloat arithmetic on the same grid: the result of every operation that is defined in the reals is not NaN,
+                # agrees with the log-domain helper, and differences of equal values are an exact zero that can be divided
+                if a < inf and b < inf:
+                    y = U.LogRepFloat(log_val=b)
+                    lv = lambda r_: r_.log_val if isinstance(r_, U.LogRepFloat) else (math.log(r_) if r_ > 0 else (-inf if r_ == 0 else math.nan))  # noqa: E731
+                    if a >= b:
+                        d = x - y
+                        dl = lv(d)
+                        if isinstance(dl, float) and math.isnan(dl) or (isinstance(d, float) and math.isnan(d)):
+                            bad.append(("LogRepFloat difference is NaN", a, b, repr(d)))
+                        elif a == b and dl != -inf:
+                            bad.append(("LogRepFloat x - x is not zero", a, b, repr(d)))
+                        elif a > b and abs(dl - U.log_diff_exp(a, b)) > 1e-9 * max(1.0, abs(dl)):
+                            bad.append(("LogRepFloat difference", a, b, repr(d)))
+                        if a == b and a > -inf:
+                            q_ = d / x
+                            if lv(q_) != -inf:
+                                bad.append(("LogRepFloat (x - x) / x is not zero", a, b, repr(q_)))
+                    sl = lv(x + y)
+                    if math.isnan(sl) or sl != U.log_sum_exp(a, b):
+                        bad.append(("LogRepFloat sum", a, b, sl))
+                    if a > -inf and b > -inf:
+                        if lv(x * y) != a + b or lv(x / y) != a - b:
+                            bad.append(("LogRepFloat product/quotient", a, b, None))
+                    if (x < y) != (a < b) or (x == y) != (a == b):
+                        bad.append(("LogRepFloat comparison", a, b, None))
             except (OverflowError, ValueError, ZeroDivisionError) as e:
                 bad.append((type(e).__name__, a, b, str(e)))
     for v in vals:
